@@ -129,28 +129,34 @@ Fixpoint life_run (l : life) (ns : list notif) : option life :=
 Definition life0 : life :=
   {| lf_tasks := []; lf_svcs := []; lf_used_t := []; lf_used_s := []; lf_seen_any := false |}.
 
-(* service-finished is issued in the call that delivers the completion: either the
-   call is fire_event(finish id) or the completion was sent from inside the
-   service-started notification (the SS entry immediately precedes the SF entry) *)
-Fixpoint sf_in_place (c : apicall) (prev : option notif) (ns : list notif) : bool :=
-  match ns with
+(* service-finished is issued in the call that delivers the completion: the call is
+   fire_event(finish id); or the completion was sent from inside the service-started
+   notification of that very service (its SS entry immediately precedes the SF entry); or it
+   was sent from inside another notification (between the EFireIn / EFireOut entries) *)
+Fixpoint sf_in_place (c : apicall) (fires : list nat) (prev : option notif) (log : list entry) : bool :=
+  match log with
   | [] => true
-  | n :: t =>
+  | ENotif 0 n _ :: t =>
     (match n_kind n with
      | SF => (match c with AFinish id => Nat.eqb id (n_id n) | _ => false end)
+             || mem (n_id n) fires
              || (match prev with
                  | Some p => is_kind SS p && Nat.eqb (n_id p) (n_id n)
                  | None => false
                  end)
      | _ => true
-     end) && sf_in_place c (Some n) t
+     end) && sf_in_place c fires (Some n) t
+  | EFireIn i :: t => sf_in_place c (i :: fires) prev t
+  | EFireOut i _ :: t =>
+    sf_in_place c (match remove_first (Nat.eqb i) fires with Some l => l | None => fires end) prev t
+  | _ :: t => sf_in_place c fires prev t
   end.
 
 Fixpoint life_calls (l : life) (cs : list apicall) (tr : list callrec) : bool :=
   match cs, tr with
   | c :: cr, r :: t =>
     let ns := map fst (ee_notifs (cr_log r)) in
-    sf_in_place c None ns &&
+    sf_in_place c [] None (cr_log r) &&
     match life_run l ns with
     | Some l' =>
       (* when the order is complete nothing is left open *)
@@ -210,7 +216,67 @@ Fixpoint c08_run (started : bool) (prev : callrec) (cs : list apicall) (tr : lis
 Definition callrec0 : callrec :=
   {| cr_ret := false; cr_log := []; cr_running := false; cr_awaited := []; cr_final := false |}.
 
-Definition holds_C08 (cs : list apicall) (tr : list callrec) : bool := c08_run false callrec0 cs tr.
+(* acceptance against what was ANNOUNCED (not against what the scheduler says it awaits):
+   a completion -- top-level or sent from inside a notification -- is accepted exactly when
+   its service has been announced by a service-started notification, has not been reported
+   finished, and no report of it is in progress *)
+Record acc_state := {
+  ac_open : list nat;        (* announced, not finished *)
+  ac_flight : list nat;      (* a report of it has been accepted and its call has not returned,
+                                or it was completed from inside its own notification *)
+  ac_nss : nat;              (* service starts seen by function 0 *)
+  ac_exp : list (nat * bool) (* expected results of the nested calls in progress *)
+}.
+
+Fixpoint acc_log (imm : nat -> bool) (a : acc_state) (log : list entry) : option acc_state :=
+  match log with
+  | [] => Some a
+  | ENotif 0 n _ :: t =>
+    match n_kind n with
+    | SS => acc_log imm {| ac_open := ac_open a ++ [n_id n];
+                           ac_flight := if imm (ac_nss a) then n_id n :: ac_flight a else ac_flight a;
+                           ac_nss := S (ac_nss a); ac_exp := ac_exp a |} t
+    | SF => match remove_first (Nat.eqb (n_id n)) (ac_open a) with
+            | Some l => acc_log imm {| ac_open := l; ac_flight := ac_flight a; ac_nss := ac_nss a;
+                                       ac_exp := ac_exp a |} t
+            | None => None
+            end
+    | _ => acc_log imm a t
+    end
+  | EFireIn i :: t =>
+    let e := mem i (ac_open a) && negb (mem i (ac_flight a)) in
+    acc_log imm {| ac_open := ac_open a; ac_flight := if e then i :: ac_flight a else ac_flight a;
+                   ac_nss := ac_nss a; ac_exp := (i, e) :: ac_exp a |} t
+  | EFireOut i r :: t =>
+    match ac_exp a with
+    | (i', e) :: rest =>
+      if Nat.eqb i i' && Bool.eqb r e
+      then acc_log imm {| ac_open := ac_open a; ac_flight := ac_flight a; ac_nss := ac_nss a; ac_exp := rest |} t
+      else None
+    | [] => None
+    end
+  | _ :: t => acc_log imm a t
+  end.
+
+Fixpoint acc_run (imm : nat -> bool) (a : acc_state) (cs : list apicall) (tr : list callrec) : bool :=
+  match cs, tr with
+  | c :: cr, r :: t =>
+    let top := match c with AFinish id => Some id | _ => None end in
+    let e := match top with Some id => mem id (ac_open a) | None => false end in
+    (match c with AFinish _ => Bool.eqb (cr_ret r) e | _ => true end)
+    && match acc_log imm {| ac_open := ac_open a;
+                            ac_flight := match top with Some id => if e then [id] else [] | None => [] end;
+                            ac_nss := ac_nss a; ac_exp := [] |} (cr_log r) with
+       | Some a' => (match ac_exp a' with [] => true | _ => false end) && acc_run imm a' cr t
+       | None => false
+       end
+  | _, _ => true
+  end.
+
+Definition acc0 : acc_state := {| ac_open := []; ac_flight := []; ac_nss := 0; ac_exp := [] |}.
+
+Definition holds_C08 (imm : nat -> bool) (cs : list apicall) (tr : list callrec) : bool :=
+  c08_run false callrec0 cs tr && acc_run imm acc0 cs tr.
 
 (* ===================================================================== *)
 (* C20 — every registered function fires once per notification, in order   *)
@@ -430,19 +496,24 @@ Record verdict := {
   v_mon_model : bool              (* the property's monitor on the model's trace *)
 }.
 
-Definition judge_with (p : proj) (mon : list apicall -> list callrec -> bool)
+Definition judge_with (p : proj) (mon : runcase -> list callrec -> bool)
            (c : runcase) (impl : list callrec) : verdict :=
   match run_ref c with
   | Ok tr => {| v_model := 0; v_disagree := first_disagree p tr impl 0;
                 v_full_disagree := first_disagree P_full tr impl 0;
-                v_mon_impl := mon (rc_script c) impl; v_mon_model := mon (rc_script c) tr |}
+                v_mon_impl := mon c impl; v_mon_model := mon c tr |}
   | Fuel => {| v_model := 2; v_disagree := None; v_full_disagree := None;
-               v_mon_impl := mon (rc_script c) impl; v_mon_model := true |}
+               v_mon_impl := mon c impl; v_mon_model := true |}
   | Exn _ => {| v_model := 3; v_disagree := None; v_full_disagree := None;
-                v_mon_impl := mon (rc_script c) impl; v_mon_model := true |}
+                v_mon_impl := mon c impl; v_mon_model := true |}
   | Unsupported => {| v_model := 4; v_disagree := None; v_full_disagree := None;
-                      v_mon_impl := mon (rc_script c) impl; v_mon_model := true |}
+                      v_mon_impl := mon c impl; v_mon_model := true |}
   end.
 
-Definition mon_true (_ : list apicall) (_ : list callrec) : bool := true.
-Definition mon_C01 (_ : list apicall) (tr : list callrec) : bool := holds_C01 tr.
+Definition mon_true (_ : runcase) (_ : list callrec) : bool := true.
+Definition mon_C01 (_ : runcase) (tr : list callrec) : bool := holds_C01 tr.
+Definition mon_C07 (c : runcase) (tr : list callrec) : bool := holds_C07 (rc_script c) tr.
+Definition mon_C08 (c : runcase) (tr : list callrec) : bool := holds_C08 (imm_of (rc_imm c)) (rc_script c) tr.
+Definition mon_C14 (c : runcase) (tr : list callrec) : bool := holds_C14 (rc_script c) tr.
+Definition mon_C17 (c : runcase) (tr : list callrec) : bool := holds_C17 (rc_script c) tr.
+Definition mon_C20 (c : runcase) (tr : list callrec) : bool := holds_C20 (rc_script c) tr.
